@@ -11,7 +11,7 @@ T=/var/tmp/verif-dev-m; mkdir -p $T/bin $T/replays
 sed "s|=> /repo|=> $WT|; s|=> ./_third_party|=> $PWD/harness/_third_party|" harness/go.mod > $T/go.mod; cp harness/go.sum $T/go.sum
 RACE=""; [ "${2:-}" = race ] && RACE=-race
 (cd harness && $GO test -c $RACE -modfile=$T/go.mod -tags verif -o $T/h.test .) || exit 2
-for b in ${DEV_BINS:-}; do (cd $WT && $GO build -o $T/bin/$b ./cmd/$b); done
+for b in ${DEV_BINS:-}; do n=${b%.race}; r=""; [ "$n" != "$b" ] && r=-race; (cd $WT && $GO build $r -o $T/bin/$b ./cmd/$n); done
 rm -f $T/out.jsonl; mkdir -p /dev/shm/verif-dev-m
 VERIF_TIER=${VERIF_TIER:-quick} VERIF_OUT=$T/out.jsonl VERIF_TMP=/dev/shm/verif-dev-m VERIF_BIN=$T/bin VERIF_HARNESS_BIN=$T/h.test VERIF_REPLAY_DIR=$T/replays \
   $T/h.test -test.run "$1" -test.timeout 0 -test.count 1 -test.v 2>&1 | grep -E "VIOLATION|^---|PASS|FAIL|panic" | cut -c1-300 | head -${DEV_TAIL:-12}
